@@ -99,6 +99,17 @@ class Sym:
                 projs.append('as:' + e["n"])
             else:
                 projs.append('?')
+        # normalisations: (a op_with_overflow b).0 -> a op b ; tuple{..}.i -> component
+        while projs:
+            if base[0] == 'bin' and base[1].endswith('WithOverflow') and projs[0] == '.0':
+                base = ('bin', base[1][:-len('WithOverflow')], base[2], base[3])
+                projs = projs[1:]
+            elif base[0] == 'agg' and base[1] == 'tuple' and projs[0][:1] == '.' and projs[0][1:].isdigit() \
+                    and int(projs[0][1:]) < len(base[3]):
+                base = base[3][int(projs[0][1:])]
+                projs = projs[1:]
+            else:
+                break
         if not projs:
             return base
         if base[0] == 'place':
@@ -111,6 +122,8 @@ class Sym:
             return self.operand(rv["a"], depth)
         if k == "ref":
             t = self.place(rv["p"], depth)
+            if t[0] == 'place' and t[2] == ('*',):
+                return t[1]          # reborrow  &*x  ==  x
             return ('refmut' if rv["m"] == "mut" else 'ref', t)
         if k == "rawptr":
             return ('rawptr', self.place(rv["p"], depth))
